@@ -900,6 +900,28 @@ func (r *runner) oracleProbe(p *probeRes, top int64, v func(string, ...interface
 			want := fmt.Sprintf("%d", l.balance(m, sy, r.mat))
 			if got := p.bals[[2]int64{m, sy}]; got != want {
 				v("C01 key=balance: Balance(minConf=%d, syncHeight=%d) = %s, ledger truth %s", m, sy, got, want)
+				// C12 "excluded from the balance": is the difference explained by the leases in force?
+				if len(l.locked()) > 0 {
+					noLease := l.clone()
+					noLease.leases = map[wire.OutPoint]oLease{}
+					var twice int64
+					for op := range l.leases {
+						if _, ok := l.leaseOf(op); ok && l.spent(op) && !l.spentConfirmed(op) {
+							if k := l.find(op.Hash); k != nil && k.blk != nil {
+								val, _ := l.creditValue(op)
+								twice += val
+							}
+						}
+					}
+					switch got {
+					case fmt.Sprintf("%d", noLease.balance(m, sy, r.mat)):
+						v("C12 key=leased-counted-in-balance: Balance(minConf=%d, syncHeight=%d) = %s counts leased outputs (ledger truth %s, leases in force: %s)", m, sy, got, want, strings.Join(l.locked(), ","))
+					case fmt.Sprintf("%d", l.balance(m, sy, r.mat)-twice):
+						v("C12 key=leased-subtracted-twice: Balance(minConf=%d, syncHeight=%d) = %s subtracts a leased output with an unconfirmed spend twice (ledger truth %s)", m, sy, got, want)
+					default:
+						v("C12 key=balance-with-leases: Balance(minConf=%d, syncHeight=%d) = %s, ledger truth %s, with leases in force: %s", m, sy, got, want, strings.Join(l.locked(), ","))
+					}
+				}
 			}
 		}
 	}
@@ -927,6 +949,12 @@ func (r *runner) oracleProbe(p *probeRes, top int64, v func(string, ...interface
 		}
 		if d := setDiff(real, spec); d != "" {
 			v("C01 key=utxos: UnspentOutputs vs ledger truth: %s", d)
+		}
+		// C12 "excluded from the spendable set"
+		for i := range p.utxos {
+			if ls, ok := l.leaseOf(p.utxos[i].OutPoint); ok {
+				v("C12 key=leased-in-utxos: UnspentOutputs lists %s, which is leased to id %d until %d (now %d)", opStr(p.utxos[i].OutPoint), ls.id, ls.expiry, l.now)
+			}
 		}
 		if d := setDiff(realZero, specZero); d != "" {
 			v("C01 key=rollback.zero-value-credit: zero-value credited outputs, UnspentOutputs vs ledger truth: %s", d)
